@@ -186,6 +186,11 @@ def py_walk(root, mode):
     return out, err
 
 
+def short(r):
+    t = repr(r)
+    return t if len(t) <= 120 else t[:60] + '...' + t[-50:]
+
+
 def oracle(observed, verdict, expected, exp_err):
     """The property, evaluated on what the implementation listed. observed/expected: [(rel bytes, kind)].
     Returns None or a description of the failure."""
@@ -194,17 +199,17 @@ def oracle(observed, verdict, expected, exp_err):
     paths = {}
     for i, (r, k) in enumerate(observed):
         if r in paths:
-            return 'entry %r listed more than once' % r
+            return 'entry %s listed more than once' % short(r)
         paths[r] = (i, k)
     expset = set(expected)
     for r, k in observed:
         if (r, k) not in expset:
-            return 'listed %r (%s) which is not an included entry (excluded, below an excluded folder or a link, or wrong kind)' % (r, k)
+            return 'listed %s (%s) which is not an included entry (excluded, below an excluded folder or a link, or wrong kind)' % (short(r), k)
     for i, (r, k) in enumerate(observed):
         if b'/' in r:
             par = r.rsplit(b'/', 1)[0]
             if par not in paths or paths[par][0] > i or paths[par][1] != 'd':
-                return 'entry %r listed before its folder' % r
+                return 'entry %s listed before its folder' % short(r)
     if exp_err:
         if verdict != 'ERR':
             return 'a directory could not be read but the listing ended normally with %d entries' % len(observed)
@@ -213,7 +218,7 @@ def oracle(observed, verdict, expected, exp_err):
             return 'listing failed although every directory is readable'
         if len(observed) != len(expected):
             missing = sorted(expset - set(observed))[:3]
-            return 'listing is missing %d entries, e.g. %r' % (len(expected) - len(observed), missing)
+            return 'listing is missing %d entries, e.g. %s' % (len(expected) - len(observed), short(missing))
     return None
 
 
